@@ -1,9 +1,116 @@
 import TaurexModel.Proto
+import TaurexModel.Chemistry
 
 namespace Taurex.Ops.C10
-open Taurex.Proto
+open Taurex.Proto Taurex.NpInterp Taurex.Chemistry
 
-/-- operations of the C10 model served by `driver_c10` (filled in by the C10 check) -/
-def ops : List Op := []
+/-- outcome payload: `0 <value>` ok, `1` invalid model, `2` other exception -/
+def fOutcome {β : Type} (f : β → String) : Outcome β → String
+  | .ok v => "0 " ++ f v
+  | .invalid => "1"
+  | .error => "2"
+
+/-- gas descriptor: `0 mix` | `1 surf top pB window` | `2 surf top` | `3 <list>` | `4 mixS alpha beta gamma barFactor` -/
+def gasP : P (Gas Float) := do
+  let tag ← nat
+  match tag with
+  | 0 => do
+    let m ← flt
+    pure (.constant m)
+  | 1 => do
+    let s ← flt
+    let t ← flt
+    let pb ← flt
+    let w ← flt
+    pure (.twoLayer s t pb w)
+  | 2 => do
+    let s ← flt
+    let t ← flt
+    pure (.twoPoint s t)
+  | 3 => do
+    let a ← listOf flt
+    pure (.array a)
+  | 4 => do
+    let ms ← flt
+    let a ← flt
+    let b ← flt
+    let c ← flt
+    let bf ← flt
+    pure (.power ms a b c bf)
+  | _ => failure
+
+/-- `c10.gas <gas> nlayers pressure temperature` → outcome list -/
+def gasOp (args : List String) : Option String :=
+  run (do
+    let g ← gasP
+    let n ← nat
+    let pr ← listOf flt
+    let te ← listOf flt
+    pure (fOutcome (fList fF) (g.profile n pr te))) args
+
+/-- `c10.mix nFill ratios traces nlayers` → outcome rows -/
+def mixOp (args : List String) : Option String :=
+  run (do
+    let nf ← nat
+    let ratios ← listOf flt
+    let traces ← listOf (listOf flt)
+    let n ← nat
+    pure (fOutcome (fList (fList fF)) (mixProfile nf ratios traces n))) args
+
+/-- `c10.chem nFill ratios gases nlayers pressure temperature masses` → outcome (rows, mu) -/
+def chemOp (args : List String) : Option String :=
+  run (do
+    let nf ← nat
+    let ratios ← listOf flt
+    let gases ← listOf gasP
+    let n ← nat
+    let pr ← listOf flt
+    let te ← listOf flt
+    let masses ← listOf flt
+    let r := chemistry nf ratios gases n pr te
+    pure (fOutcome (fun rows => fList (fList fF) rows ++ " " ++ fList fF (muProfile rows masses n)) r)) args
+
+def strTok : P String := tok
+
+/-- `c10.split gases registered optDeactive` → active names, inactive names, active mask, inactive mask -/
+def splitOp (args : List String) : Option String :=
+  run (do
+    let gases ← listOf strTok
+    let reg ← listOf strTok
+    let deact ← optOf (listOf strTok)
+    let avail := availableActive reg deact
+    pure (fList id (activeGases gases avail) ++ " " ++ fList id (inactiveGases gases avail) ++ " " ++
+          fList fN (activeMask gases avail) ++ " " ++ fList fN (inactiveMask gases avail))) args
+
+/-- `c10.lookup gases avail mix name` → option row ; `c10.rows gases avail mix` → active rows, inactive rows -/
+def lookupOp (args : List String) : Option String :=
+  run (do
+    let gases ← listOf strTok
+    let avail ← listOf strTok
+    let mix ← listOf (listOf flt)
+    let name ← strTok
+    pure (fOpt (fList fF) (getGasMixProfile gases avail mix name))) args
+
+def rowsOp (args : List String) : Option String :=
+  run (do
+    let gases ← listOf strTok
+    let avail ← listOf strTok
+    let mix ← listOf (listOf flt)
+    pure (fList (fList fF) (selectRows mix (activeMask gases avail)) ++ " " ++
+          fList (fList fF) (selectRows mix (inactiveMask gases avail)))) args
+
+/-- `c10.weight names values amu formulas` → list of optional molecular weights (kg) -/
+def weightOp (args : List String) : Option String :=
+  run (do
+    let names ← listOf strTok
+    let vals ← listOf flt
+    let amu ← flt
+    let formulas ← listOf strTok
+    let table := names.zip vals
+    pure (fList (fOpt fF) (formulas.map (molecularWeight table amu)))) args
+
+def ops : List Op :=
+  [("c10.gas", gasOp), ("c10.mix", mixOp), ("c10.chem", chemOp), ("c10.split", splitOp),
+   ("c10.lookup", lookupOp), ("c10.rows", rowsOp), ("c10.weight", weightOp)]
 
 end Taurex.Ops.C10
